@@ -27,6 +27,7 @@ def gen_doc(rng):
     tags = set()
 
     sent = [0]
+    used_classes = [False]
 
     def stext():
         sent[0] += 1
@@ -139,8 +140,20 @@ def gen_doc(rng):
         bg = rng.random() < 0.25
         if bg:
             tags.add("background-url")
+        # the attributes that decide the structure reach the element directly or through an mj-class (defined in the head below)
+        classes, direct = [], ""
+        for present, cls, attr in ((bool(extra), "fwc", extra), (bg, "bgc", ' background-url="https://x/b.png"')):
+            if present:
+                if rng.random() < 0.3:
+                    classes.append(cls)
+                    tags.add("structure-via-mj-class")
+                    used_classes[0] = True
+                else:
+                    direct += attr
+        if classes:
+            direct += ' mj-class="%s"' % " ".join(classes)
         return ("(%s, %s)" % ("true" if bg else "false", c),
-                "<mj-section%s%s%s>%s</mj-section>" % (extra, rng.choice(SEC_ATTRS), ' background-url="https://x/b.png"' if bg else "", m))
+                "<mj-section%s%s>%s</mj-section>" % (direct, rng.choice(SEC_ATTRS), m))
 
     def block():
         x = rng.random()
@@ -170,11 +183,18 @@ def gen_doc(rng):
         tags.add("wrapper:%d" % len(ws))
         if rng.random() < 0.3:
             tags.add("full-width-wrapper")
-            return ("FullWrap [%s]" % "; ".join(c for c, _ in ws), '<mj-wrapper full-width="full-width"%s>%s</mj-wrapper>' % (rng.choice(WRAP_ATTRS), "".join(m for _, m in ws)))
+            fw = ' full-width="full-width"'
+            if rng.random() < 0.3:
+                fw = ' mj-class="fwc"'
+                tags.add("structure-via-mj-class")
+                used_classes[0] = True
+            return ("FullWrap [%s]" % "; ".join(c for c, _ in ws), '<mj-wrapper%s%s>%s</mj-wrapper>' % (fw, rng.choice(WRAP_ATTRS), "".join(m for _, m in ws)))
         return ("Wrap [%s]" % "; ".join(c for c, _ in ws), "<mj-wrapper%s>%s</mj-wrapper>" % (rng.choice(WRAP_ATTRS), "".join(m for _, m in ws)))
     bs = [block() for _ in range(rng.choice([0, 1, 2, 3, 4, 5, 6]))]
     tags.add("blocks:%d" % len(bs))
-    return "[%s]" % "; ".join(c for c, _ in bs), "<mjml><mj-body>%s</mj-body></mjml>" % "".join(m for _, m in bs), sorted(tags)
+    head = ('<mj-head><mj-attributes><mj-class name="fwc" full-width="full-width" /><mj-class name="bgc" background-url="https://x/b.png" /></mj-attributes></mj-head>'
+            if used_classes[0] else "")
+    return "[%s]" % "; ".join(c for c, _ in bs), "<mjml>%s<mj-body>%s</mj-body></mjml>" % (head, "".join(m for _, m in bs)), sorted(tags)
 
 
 def tie(ck, hb, failing, ok, n):
